@@ -27,6 +27,7 @@ func init() {
 			ruleForEachVisibility(r)
 			ruleFreshMaps(r)
 			ruleStepSamplesAccumulate(r, []string{"vectorAggIterator", "vectorAggHeapIterator", "rangeAggIterator"})
+			rulePerStepGroupTables(r, []string{"vectorAggIterator", "vectorAggHeapIterator"})
 		},
 	})
 }
